@@ -79,6 +79,9 @@ func (line *Line) Target() string {
 func (line *Line) Public() bool {
 	switch line.Cmd {
 	case PRIVMSG, NOTICE, ACTION:
+		if len(line.Args) < 1 || line.Args[0] == "" {
+			return false
+		}
 		switch line.Args[0][0] {
 		case '#', '&', '+', '!':
 			return true
@@ -90,6 +93,9 @@ func (line *Line) Public() bool {
 		// TODO(fluffle): Arguably this is broken, and we should have
 		// line.Args containing: []string{"#foo", "BAR", "baz"}
 		// ... OR change conn.Ctcp()'s argument order to be consistent.
+		if len(line.Args) < 2 || line.Args[1] == "" {
+			return false
+		}
 		switch line.Args[1][0] {
 		case '#', '&', '+', '!':
 			return true
